@@ -188,12 +188,12 @@ def part_job(ctx, i):
         ctx.count('reruns_equal')
 
 
-def run_with_stdout(text, dec, pop):
+def run_with_stdout(text, dec, pop, stop_at=None):
     reset_devices(pop)
     saved = sys.stdout
     sys.stdout = Tee()
     try:
-        r = run_script(text, dec)
+        r = run_script(text, dec, monitor=stop_at is not None, stop_at=stop_at)
     finally:
         sys.stdout = saved
     out = ''.join(e[1] for e in r.log if e[0] == 'stdout')
@@ -217,15 +217,23 @@ def part_pair(ctx, i):
     rb, out_alone, log_alone = run_with_stdout(tb, db, pop)
     if not rb.accepted or rb.stops:
         return
-    ra, _, _ = run_with_stdout(ta, da, pop)
+    # the first job runs to its end or is stopped at a random instruction
+    stop_at = rng.randint(1, 80) if rng.random() < 0.5 else None
+    ra, _, _ = run_with_stdout(ta, da, pop, stop_at)
+    if stop_at is not None and ra.mon is not None and \
+            ra.mon.stopped_at is not None:
+        ctx.count('pairs_first_job_stopped')
     rb2, out_after, log_after = run_with_stdout(tb, db, pop)
     ctx.case('N:' + sig([ta, tb]), nontrivial=len(out_alone) > 0)
     replay = {'part': 'pair', 'first': ta, 'second': tb, 'population': pop}
     if out_after != out_alone:
-        ctx.violation('pair:stdout-differs',
-                      'second job wrote {!r} after another job, {!r} alone | '
-                      'first job: ...{}'.format(out_after[:80], out_alone[:80],
-                                                ta[-200:]), replay)
+        ctx.violation('pair:stdout-differs' + (
+            ':after-stopped-job' if stop_at is not None else ''),
+            'second job wrote {!r} after another job, {!r} alone | '
+            'first job{}: ...{}'.format(
+                out_after[:80], out_alone[:80],
+                ' (stopped at step {})'.format(stop_at) if stop_at else '',
+                ta[-200:]), replay)
     elif log_after != log_alone:
         ctx.violation('pair:log-differs', 'second job behaves differently '
                       'after: ...{}'.format(ta[-200:]), replay)
